@@ -397,12 +397,12 @@ class MementoFunction(MementoFunctionBase):
         """
         return self.fn(*args, **kwargs)
 
-    def _update_fn_reference(self):
-        """Update the _fn_reference attribute based on the latest computed version"""
+    def _update_fn_reference(self, version: str):
+        """Update the _fn_reference attribute for the given (explicit or just computed) version"""
         self._fn_reference = FunctionReference(
             self,
             cluster_name=self.cluster_name,
-            version=self.version(),
+            version=version,
             partial_args=self.partial_args,
             partial_kwargs=self.partial_kwargs,
         )
@@ -413,7 +413,7 @@ class MementoFunction(MementoFunctionBase):
         # If version is explicitly specified, function reference is static.
         if self.explicit_version is not None:
             if self._fn_reference is None:
-                self._update_fn_reference()
+                self._update_fn_reference(self.explicit_version)
             return
 
         # Do not recompute version if the cluster is locked
@@ -453,8 +453,10 @@ class MementoFunction(MementoFunctionBase):
         version = self._recompute_version()
 
         if self._calculated_version != version:
+            # The reference is replaced before the version is: a thread that finds the new
+            # version in place must not be handed the reference of the previous one
+            self._update_fn_reference(version)
             self._calculated_version = version
-            self._update_fn_reference()
 
             if entry is None or (entry is not None and entry.version != version):
                 # Notify the user about the new version
